@@ -12,6 +12,8 @@ import (
 	"github.com/mandykoh/prism/meta/jpegmeta"
 	"github.com/mandykoh/prism/meta/pngmeta"
 	"github.com/mandykoh/prism/meta/webpmeta"
+
+	"verif/internal/src"
 )
 
 type Fn func(io.Reader) (*meta.Data, io.Reader, error)
@@ -89,4 +91,12 @@ func Same(a, b Outcome) bool {
 
 func (o Outcome) String() string {
 	return fmt.Sprintf("{ok=%v mdnil=%v %s %dx%d bits=%d icc=%d bytes nil=%v iccerr=%q err=%q panic=%v}", o.OK, o.MDNil, o.Format, o.W, o.H, o.Bits, o.ICCLen, o.ICCNil, o.ICCErr, o.Err, o.Panic != "")
+}
+
+// RunStd runs the named loader on data delivered by a standard-library reader of the given dynamic type,
+// positioned after prefix unrelated bytes (see src.Std).
+func RunStd(name, kind string, prefix int, data []byte, scratch string) Outcome {
+	r, _, cleanup := src.Std(kind, prefix, data, scratch)
+	defer cleanup()
+	return Run(name, r)
 }
